@@ -54,8 +54,27 @@ func (r *runner) record(class, sig, desc string, rp Replay) {
 
 // flush reports the collected failures round-robin over the classes, so that the first
 // few reported violations are of different kinds (the driver prints the first five).
+// classes that correspond to the defects found so far come first
+var classPriority = []string{"enc:roundtrip-count", "enc:roundtrip-err-unexpected-content", "dec:panic", "dec:reencode-unsorted",
+	"dec:reencode-graphsync-noncanonical", "dec:alloc", "dec:alloc-graphsync", "enc:roundtrip-panic"}
+
+func classRank(c string) int {
+	for i, p := range classPriority {
+		if c == p || strings.HasPrefix(c, p) && p != "dec:alloc" {
+			return i
+		}
+	}
+	return len(classPriority)
+}
+
 func (r *runner) flush() {
-	sort.Strings(r.classes)
+	sort.Slice(r.classes, func(i, j int) bool {
+		a, b := classRank(r.classes[i]), classRank(r.classes[j])
+		if a != b {
+			return a < b
+		}
+		return r.classes[i] < r.classes[j]
+	})
 	for i := 0; ; i++ {
 		any := false
 		for _, cl := range r.classes {
@@ -312,6 +331,31 @@ func main() {
 			r.doEnc("graphsync", []PSpec{g, {K: "gateway"}})
 			r.doEnc("graphsync", []PSpec{{K: "bitswap"}, g, unk(0x0911, []byte{1, 2, 3})})
 		}
+	}
+
+	// many protocols (13..40: beyond the insertion-sort range of sort.Sort), pairwise
+	// distinct IDs so that the sorted arrangement is unique
+	rm := c.Rng.Fork("enc-many")
+	for i, n := 0, c.Pick(40, 400); i < n; i++ {
+		k := 13 + rm.Intn(28)
+		used := map[uint64]bool{idBitswap: true, idGateway: true, idGS: true}
+		specs := []PSpec{{K: "bitswap"}, {K: "gateway"}, gs(cidIdent3, rm.Bool(), rm.Bool())}
+		for len(specs) < k {
+			code := uint64(rm.Intn(6000))
+			if rm.Intn(8) == 0 {
+				code = rm.Uint64() >> 1
+			}
+			if used[code] {
+				continue
+			}
+			used[code] = true
+			specs = append(specs, unk(code, rm.Bytes(rm.Intn(12))))
+		}
+		for j := len(specs) - 1; j > 0; j-- {
+			q := rm.Intn(j + 1)
+			specs[j], specs[q] = specs[q], specs[j]
+		}
+		r.doEnc("many-distinct", specs)
 	}
 
 	// ---- decode side -------------------------------------------------------
